@@ -472,6 +472,9 @@ structure Sys where
   /-- records: (reader, metrics) -/
   recs : List (Nat × List Metric) := []
   clock : Nat := 0
+  /-- the observable instruments' callbacks are registered with `Meter.RegisterCallback` after the creation (always
+  registered, also for a repeated identical instrument) instead of being passed as creation options -/
+  reg : Bool := false
 deriving Repr
 
 inductive Op where
@@ -487,8 +490,8 @@ inductive Op where
   | create (j : Nat)
 deriving Repr
 
-def Sys.init (limit : Nat) (tps : List Temporality) (views : List View) (insts : List Inst) : Sys :=
-  { insts := insts, pipes := tps.map fun tp => Pipe.create limit views { tp := tp } insts 0 }
+def Sys.init (limit : Nat) (tps : List Temporality) (views : List View) (insts : List Inst) (reg : Bool := false) : Sys :=
+  { insts := insts, pipes := tps.map fun tp => Pipe.create limit views { tp := tp } insts 0, reg := reg }
 
 def isAsync (insts : List Inst) (j : Nat) : Bool :=
   match insts[j]? with
@@ -503,13 +506,13 @@ def instIdent (insts : List Inst) (j : Nat) : Option (Nat × Nat × Kind × Bool
 /-- does the callback given at the creation of observable instrument `j` run?  "If Int64ObservableCounter is invoked
 repeatedly with the same Name, Description, and Unit, only the first set of callbacks provided are used"
 (meter.go:128-163: the cached observable is returned, the new callbacks are not registered). -/
-def cbActive (insts : List Inst) (j : Nat) : Bool :=
-  isAsync insts j && !((List.range j).any fun j' => instIdent insts j' == instIdent insts j)
+def cbActive (insts : List Inst) (j : Nat) (reg : Bool := false) : Bool :=
+  isAsync insts j && (reg || !((List.range j).any fun j' => instIdent insts j' == instIdent insts j))
 
 /-- callbacks run in instrument creation order; each replays the observations of its instrument -/
-def Pipe.replay (p : Pipe) (insts : List Inst) (cur : List (Nat × CSet × Int)) : Pipe :=
+def Pipe.replay (p : Pipe) (insts : List Inst) (cur : List (Nat × CSet × Int)) (reg : Bool := false) : Pipe :=
   (List.range insts.length).foldl (fun p j =>
-    if cbActive insts j then
+    if cbActive insts j reg then
       cur.foldl (fun p o => if o.1 == j then p.measure j o.2.1 o.2.2 else p) p
     else p) p
 
@@ -524,12 +527,13 @@ def Sys.step (s : Sys) : Op → Sys
     match s.pipes[r]? with
     | none => s
     | some p =>
-      let p := p.replay s.insts s.cur
+      let p := p.replay s.insts s.cur s.reg
       let (streams', ms) := collectStreams p.tp (s.clock + 1) p.streams
       { s with pipes := s.pipes.set r { p with streams := streams' }, recs := s.recs ++ [(r, ms)],
                clock := s.clock + 1 }
 
-def Sys.run (limit : Nat) (tps : List Temporality) (views : List View) (insts : List Inst) (ops : List Op) : Sys :=
-  ops.foldl Sys.step (Sys.init limit tps views insts)
+def Sys.run (limit : Nat) (tps : List Temporality) (views : List View) (insts : List Inst) (ops : List Op)
+    (reg : Bool := false) : Sys :=
+  ops.foldl Sys.step (Sys.init limit tps views insts reg)
 
 end Otel.C12
